@@ -99,7 +99,16 @@ def run (kv : KV) : String :=
   -- agreement per observable
   let strip (o : Spec.Obs) : Spec.Obs := { o with bodyRead := [], readEnd := "", addr := "" }
   let aHeads := big || mobs.map strip == obs.map strip
-  let aBodies := big || mobs.map (fun o => (o.bodyRead, o.readEnd)) == obs.map (fun o => (o.bodyRead, o.readEnd))
+  -- a chunked body whose decoding fails or blocks: how many bytes the application had obtained by
+  -- then depends on the segmentation (known finding of C13; `Props/C13.lean`, the `_masked`
+  -- theorems) — the model predicts the outcome of the read, not that byte count
+  let lossyAt (d : Delivered) : Bool := (d.readEnd == .err || d.readEnd == .pending) &&
+    (match framingOf d.headers with | .ok fr => fr.kind == .chunked | .error _ => false)
+  let maskedBodies : List (Bytes × String) := (t.delivered.zip mobs).map (fun (d, o) =>
+    (if lossyAt d then [] else o.bodyRead, o.readEnd))
+  let maskedObs : List (Bytes × String) := (obs.zipIdx).map (fun (o, i) =>
+    (if (t.delivered[i]?.map lossyAt).getD false then [] else o.bodyRead, o.readEnd))
+  let aBodies := big || (mobs.length == obs.length && maskedBodies == maskedObs)
   let aSeq := big || mobs.map (·.url) == obs.map (·.url)
   let werrAfter : Option Nat := if has kv "werr" then
       (match splitS ':' (get kv "werr") with
